@@ -20,7 +20,8 @@ PROP = "C04"
 RULE = ("cases: bounded-exhaustive sweep (all formulas with <=2 levels, arity<=3 over <=4 boolean leaves, every k in -1..n+1) "
         "interleaved with random ASTs to depth 4, each built via constructors / from_json / from_cicJE (five rule types x ALL/ANY x "
         "0-3 sub-conditions x optional ids); all 2^n assignments judged. non-trivial: AST depth>=2 or a negating connective "
-        "(Not, Imply, XNor, AtMost, FORBIDS_ALL); distinct by AST digest and route")
+        "(Not, Imply, XNor, AtMost, FORBIDS_ALL); distinct by AST digest and route"
+        ' Also: sibling sub-formulas that collide on a generated id, AtLeast/AtMost arguments handed over as one-shot iterables, arity up to 6; well-formed formulas are judged even when errors() is non-empty (duplicate arguments excluded).')
 BUDGET = {"quick": (12, 600, 90), "thorough": (16, 5000, 1200)}
 CONNECTIVES = ["All", "Any", "AtLeast", "AtMost", "Xor", "ExactlyOne", "XNor", "Imply", "Not"]
 PYTEST = True     # thorough tier also runs the repository's own tests under these monitors
@@ -323,6 +324,8 @@ def gen_case(rng, tier, ctx, i):
         for n in refmodel.recipe_nodes(rec):
             if n["k"] in ("AtLeast", "AtMost") and rng.random() < 0.5:
                 n["iter"] = rng.choice(["gen", "map", "tuple", "iter"])       # the arguments arrive in a one-shot iterable
+            if n["k"] in ("All", "Any", "Xor", "ExactlyOne", "XNor") and rng.random() < 0.4:
+                n["via"] = "from_list"
     return {"route": rng.choice(["ctor", "json", "both"]), "recipe": rec, "seed": rng.getrandbits(32)}
 
 
